@@ -67,16 +67,30 @@ def _i32_const(inst):
     return _explore(fn, pre, inst, good)
 
 
+def make_string(nchars, nbytes):
+    """a str with the given number of code points and UTF-8 bytes (nchars <= nbytes <= 4 nchars)"""
+    nchars = max(0, min(nchars, nbytes))
+    extra = nbytes - nchars
+    out = []
+    for _ in range(nchars):
+        k = min(3, extra)
+        extra -= k
+        out.append(["n", "\u00e9", "\u0939", "\U0001F600"][k])
+    return "".join(out)
+
+
 # -- part C: names ---------------------------------------------------------------------
 def _name_symbolic(inst):
     from nsl import WebAssembly as W
     L = z3.Int("L")
+    C = z3.Int("C")
     idx = z3.Int("idx")
-    pre = z3.And(L >= 0, L < U32, idx >= 0, idx < U32)
+    # a str of C code points whose UTF-8 encoding has L bytes: C <= L <= 4 C
+    pre = z3.And(L >= 0, L < U32, C >= 0, C <= L, L <= 4 * C, idx >= 0, idx < U32)
 
     def fn():
         buf = ShimBuf()
-        W.Export(SymNum(idx), FakeStr(SymNum(L))).WriteTo(buf)
+        W.Export(SymNum(idx), FakeStr(SymNum(L), nchars=SymNum(C))).WriteTo(buf)
         r = wasmref.Reader(buf.data)
         nm = r.name()          # raises Malformed when prefix != byte length
         kind = r.cbyte()
@@ -320,10 +334,11 @@ def replay(spec):
             if L > 1 << 26:
                 return None
             buf = io.BytesIO()
-            W.Export(idx, "n" * L).WriteTo(buf)
+            name = make_string(inp.get("C", L), L)
+            W.Export(idx, name).WriteTo(buf)
             r = wasmref.Reader(list(buf.getvalue()))
             nm = r.name(); kind = r.cbyte(); i = r.uleb(32)
-            if nm != "n" * L or kind != 0 or i != idx or not r.eof():
+            if nm != name or kind != 0 or i != idx or not r.eof():
                 return dict(L=L, idx=idx, decoded_index=i)
             return None
         if part == "name-concrete":
